@@ -1,5 +1,5 @@
 """C14 - max_time: no step starts after the time budget is exhausted (virtual clock)."""
-from .. import common as C, gen, scen
+from .. import common as C, gen, scen, translators
 from ..runner import Check
 from . import drvgen, drvcommon as D
 
@@ -109,7 +109,7 @@ def stopcheck_level():
 
 
 def run():
-    chk = Check("C14")
+    chk = Check("C14", props_modules=["GFO.Props.C14", "GFO.Gen.StopGenCheck"], gen_steps=(translators.gen_stop,))
     chk.build_and_audit()
     r = C.rng("C14")
     quick = C.tier() != "thorough"
